@@ -35,8 +35,8 @@ theorem abMoves_root' (c : Comp σ π) (L : Limits) {Good : Board → Prop} {TTo
     ((MoveGen.gen s.board).length + 1)
     { alpha := alpha, bestMove := 0, hasLegal := false, failLow := true, maxim := -Inf - 1, moveCnt := 0, quietCnt := 0,
       pick := c.pickInit s.board hm, yielded := [] } s.pushFrame hg hfl hhash Reach.init htt
-    ⟨hw1, hw2, (fun h => by cases h), (fun _ => rfl), Int.le_refl _, Int.le_refl _, (fun h => by simp at h),
-     fun _ => ⟨rfl, fun h => by cases h⟩⟩
+    ⟨hw1, hw2, (fun h => by cases h), (fun h => by cases h), (fun _ => rfl), Int.le_refl _, Int.le_refl _,
+     (fun h => by simp at h), fun _ => ⟨rfl, fun h => by cases h⟩⟩ (Or.inl rfl)
   simp only at h'
   generalize abLoop c L child x ((MoveGen.gen s.board).length + 1)
     { alpha := alpha, bestMove := 0, hasLegal := false, failLow := true, maxim := -Inf - 1, moveCnt := 0, quietCnt := 0,
@@ -54,7 +54,7 @@ theorem abMoves_root' (c : Comp σ π) (L : Limits) {Good : Board → Prop} {TTo
     simp only at h ⊢
     intro _ hgt _
     obtain ⟨hno, hfl⟩ := h
-    have hinv := h'.2.2 l rfl
+    have hinv := (h'.2.2 l rfl).1
     cases hleg : l.hasLegal with
     | false => exact Or.inr (Or.inl (by simpa using hno hleg))
     | true =>
@@ -70,8 +70,9 @@ theorem abMoves_root' (c : Comp σ π) (L : Limits) {Good : Board → Prop} {TTo
 
 theorem abPrune_root' (c : Comp σ π) (L : Limits) {Good : Board → Prop} {TTok : σ → Prop} {μ : Board → Nat}
     (hl : Laws c Good) (sl : ScoreLaws c Good TTok μ) (child : Child σ)
-    (hc : ABSpec c L Good child) (hr : ABRange Good TTok child) (alpha beta : Score) (hw : RootWin alpha beta) (d : Int)
-    (hd : 0 ≤ d) (nt : NodeType) (inCheck improving : Bool) (se : Score) (hse : inCheck = false → InR se)
+    (hc : ABSpec c L Good child) (hr : ABRange Good TTok child) (alpha beta : Score) (hw : WinOK alpha beta) (d : Int)
+    (hrfs : ∀ se, c.rfpCut d se beta = true → beta ≤ se)
+    (nt : NodeType) (inCheck improving : Bool) (se : Score) (hse : inCheck = false → -9935 ≤ se ∧ se ≤ 9935)
     (hm : Move) (s : St σ) (hg : Good s.board) (hfl : s.board.fifty < 100) (hhash : HashOK c s.board hm)
     (hic : inCheck = s.board.inCheck s.board.stm) (htt : TTok s.ps) :
     let o := abPrune c L child alpha beta d 0 nt inCheck improving se hm s
@@ -82,7 +83,7 @@ theorem abPrune_root' (c : Comp σ π) (L : Limits) {Good : Board → Prop} {TTo
     intro _ _ hlt
     have hcut : c.rfpCut d se beta = true := by
       simp only [Bool.and_eq_true] at hrfp; exact hrfp.2
-    exact absurd hlt (Int.not_lt.2 (sl.rfp_sound d se beta hd hw.2 hcut))
+    exact absurd hlt (Int.not_lt.2 (hrfs se hcut))
   · split
     · next hnm =>
       have hic' : inCheck = false := by cases inCheck <;> simp_all
@@ -90,24 +91,26 @@ theorem abPrune_root' (c : Comp σ π) (L : Limits) {Good : Board → Prop} {TTo
       have hnmp : c.nmpTry s.board d se beta = true := by
         simp only [Bool.and_eq_true] at hnm; exact hnm.2
       have hbse : (beta : Int) ≤ se := sl.nmp_sound _ _ _ _ hnmp
-      have hb2 : beta ≤ 10000 := Int.le_trans hbse (hse hic').2
+      have hb2 : beta ≤ 9936 := Int.le_trans hbse (Int.le_trans (hse hic').2 (by decide))
+      have hb1 : -9936 ≤ beta := sl.nmp_floor _ _ _ _ hnmp
       have hn := nullMove_spec c L hl child hc beta d (Int.le_refl 0) (by decide) se s hg (sl.tt_ok _ htt) hchk
-      have hnr := nullMove_range c hl child hr beta d (Int.le_refl 0) (by decide) se s hg hchk htt hw.1.2.2.1 hb2
+      have hnr := nullMove_range c hl child hr beta d (Int.le_refl 0) (by decide) se s hg hchk htt hb1 hb2
       have hge := nullMove_ge c child beta d 0 se s
       simp only at hn hnr
       generalize nullMove c child beta d 0 se s = nm at hn hnr hge ⊢
       split
       · next v hv => intro _ _ hlt; exact absurd hlt (Int.not_lt.2 (hge v hv))
-      · have := abMoves_root' c L hl sl child hc hr alpha beta hw.1 d nt inCheck improving se hm nm.2
+      · have := abMoves_root' c L hl sl child hc hr alpha beta hw d nt inCheck improving se hm nm.2
           (by rw [hn.1.board]; exact hg) (by rw [hn.1.board]; exact hfl) (by rw [hn.1.board]; exact hhash) hnr.1
         rw [hn.1.board] at this
         exact this
-    · exact abMoves_root' c L hl sl child hc hr alpha beta hw.1 d nt inCheck improving se hm s hg hfl hhash htt
+    · exact abMoves_root' c L hl sl child hc hr alpha beta hw d nt inCheck improving se hm s hg hfl hhash htt
 
 theorem abBody_root' (c : Comp σ π) (L : Limits) {Good : Board → Prop} {TTok : σ → Prop} {μ : Board → Nat}
     (hl : Laws c Good) (sl : ScoreLaws c Good TTok μ) (child : Child σ)
-    (hc : ABSpec c L Good child) (hr : ABRange Good TTok child) (alpha beta : Score) (hw : RootWin alpha beta) (d : Int)
-    (hd : 0 ≤ d) (s : St σ) (hg : Good s.board) (hfl : s.board.fifty < 100) (htt : TTok s.ps) :
+    (hc : ABSpec c L Good child) (hr : ABRange Good TTok child) (alpha beta : Score) (hw : WinOK alpha beta) (d : Int)
+    (hrfs : ∀ se, c.rfpCut d se beta = true → beta ≤ se)
+    (s : St σ) (hg : Good s.board) (hfl : s.board.fifty < 100) (htt : TTok s.ps) :
     let o := abBody c L child alpha beta d 0 .pv s
     o.2.aborted = false → alpha < o.1 → o.1 < beta → RootOut' c.keys s.board o.2 := by
   simp only [abBody]
@@ -117,17 +120,18 @@ theorem abBody_root' (c : Comp σ π) (L : Limits) {Good : Board → Prop} {TTok
     split at heq
     · simp at heq
     · cases heq
-  · refine abPrune_root' c L hl sl child hc hr alpha beta hw d hd .pv _ _ _ ?_ _ s hg hfl
+  · refine abPrune_root' c L hl sl child hc hr alpha beta hw d hrfs .pv _ _ _ ?_ _ s hg hfl
       (hashOK_probe c (sl.tt_ok _ htt) s.board 0) rfl htt
     intro h
     simp only [h, Bool.false_eq_true, if_false]
-    exact inR_eval c s.board
+    exact eval_band c s.board
 
 /-- A ply-0 PV node searched to depth `d ≥ 1` in a sane window: un-aborted and strictly inside the
     window ⇒ non-empty row 0 or final root. -/
-theorem alphaBeta_root' (c : Comp σ π) (L : Limits) {Good : Board → Prop} {TTok : σ → Prop} {μ : Board → Nat}
+theorem alphaBeta_root_gen (c : Comp σ π) (L : Limits) {Good : Board → Prop} {TTok : σ → Prop} {μ : Board → Nat}
     (hl : Laws c Good) (sl : ScoreLaws c Good TTok μ) (fuel : Nat)
-    (alpha beta : Score) (hw : RootWin alpha beta) (d : Int) (hd : 1 ≤ d) (s : St σ) (hg : Good s.board) (htt : TTok s.ps) :
+    (alpha beta : Score) (hw : WinOK alpha beta) (d : Int) (hd : 1 ≤ d)
+    (hrfp : ∀ se, c.rfpCut d se beta = true → beta ≤ se) (s : St σ) (hg : Good s.board) (htt : TTok s.ps) :
     let o := alphaBeta c L fuel alpha beta d 0 .pv s
     o.2.aborted = false → alpha < o.1 → o.1 < beta → RootOut' c.keys s.board o.2 := by
   cases fuel with
@@ -160,9 +164,17 @@ theorem alphaBeta_root' (c : Comp σ π) (L : Limits) {Good : Board → Prop} {T
           omega
       · next hnd =>
         have := abBody_root' c L hl sl (alphaBeta c L fuel) (alphaBeta_spec c L hl fuel) (alphaBeta_range c L hl sl fuel)
-          alpha beta hw d (by omega) as.2 (by rw [hb]; exact hg) (fifty_lt_of_not_draw hnd) (by rw [hps]; exact htt)
+          alpha beta hw d hrfp as.2 (by rw [hb]; exact hg) (fifty_lt_of_not_draw hnd) (by rw [hps]; exact htt)
         rw [hb] at this
         exact this
+
+/-- … in a root window (`RootWin`: reverse futility compares without wrapping at every depth). -/
+theorem alphaBeta_root' (c : Comp σ π) (L : Limits) {Good : Board → Prop} {TTok : σ → Prop} {μ : Board → Nat}
+    (hl : Laws c Good) (sl : ScoreLaws c Good TTok μ) (fuel : Nat)
+    (alpha beta : Score) (hw : RootWin alpha beta) (d : Int) (hd : 1 ≤ d) (s : St σ) (hg : Good s.board) (htt : TTok s.ps) :
+    let o := alphaBeta c L fuel alpha beta d 0 .pv s
+    o.2.aborted = false → alpha < o.1 → o.1 < beta → RootOut' c.keys s.board o.2 :=
+  alphaBeta_root_gen c L hl sl fuel alpha beta hw.1 d hd (fun se h => sl.rfp_sound d se beta (by omega) hw.2 h) s hg htt
 
 end Search
 end ChessVerif
